@@ -102,6 +102,21 @@ def sers(o):
     return json.dumps(ser(o), sort_keys=True)
 
 
+def strip_private(j):
+    """Drop attributes whose name starts with '_' from a ser() value (hidden caches are not part of an argument's value)."""
+    if isinstance(j, dict):
+        if "obj" in j and isinstance(j["obj"], list) and len(j["obj"]) == 2 and isinstance(j["obj"][1], dict):
+            return {"obj": [j["obj"][0], {k: strip_private(v) for k, v in j["obj"][1].items() if not k.startswith("_")}]}
+        return {k: strip_private(v) for k, v in j.items()}
+    if isinstance(j, list):
+        return [strip_private(v) for v in j]
+    return j
+
+
+def value_sers(o):
+    return json.dumps(strip_private(ser(o)), sort_keys=True)
+
+
 # ------------------------------------------------------------------------------ global state of the package
 
 def global_objects():
@@ -154,6 +169,11 @@ def reachable_ids(roots, limit=200000):
             if o.base is not None:
                 stack.append(o.base)
         elif type(o).__name__ == "QuantumCircuit":
+            d = getattr(o, "_data", None)
+            if d is not None:
+                seen[id(d)] = d
+            if isinstance(o.metadata, dict):
+                stack.append(o.metadata)
             continue
         else:
             if hasattr(o, "__dict__"):
@@ -164,9 +184,10 @@ def reachable_ids(roots, limit=200000):
     return seen
 
 
-def alias_signature(held):
-    """Paths inside the caller-held objects that are (by identity) part of the package's global state."""
-    gids = reachable_ids([o for _, o in global_objects()])
+def alias_signature(held, extra_roots=()):
+    """Paths inside the caller-held objects that are (by identity) part of the package's global state
+    (or of the extra roots, e.g. the caller-held argument object that later calls will see again)."""
+    gids = reachable_ids([o for _, o in global_objects()] + list(extra_roots))
     sig = []
 
     def walk(o, path, depth):
@@ -185,6 +206,11 @@ def alias_signature(held):
             if o.base is not None and id(o.base) in gids:
                 sig.append(path + ".base")
         elif type(o).__name__ == "QuantumCircuit":
+            d = getattr(o, "_data", None)
+            if d is not None and id(d) in gids:
+                sig.append(path + "._data")
+            if isinstance(o.metadata, dict):
+                walk(o.metadata, path + ".metadata", depth + 1)
             return
         else:
             if hasattr(o, "__dict__"):
@@ -254,7 +280,79 @@ CALLS = {
     "stab_list": (lambda lib: (["XZI", "-ZXZ", "IZX"],), lambda lib, l: [lib.stabilizer.Stabilizer(l).to_list(), lib.stabilizer.Stabilizer(l).expand()]),
     "layer": (lambda lib: _rs3() + (lib.graph.Graph.linear(3),), lambda lib, R, S, g: lib.find_local_clifford_layer.find_local_clifford_layer(R, S, g)),
     "graph_lc": (lambda lib: (lib.graph.Graph.star(4), 0), lambda lib, g, v: g.local_complemented(v)),
+    # the same 4-qubit state on two restricted connectivities (cross-configuration memory)
+    "prep4star": (lambda lib: (lib.stabilizer.Stabilizer(HELD4), "star"), lambda lib, s, c: lib.stabilizer_circuits.get_preparation_circuit(s, c)),
+    "prep4lin": (lambda lib: (lib.stabilizer.Stabilizer(HELD4), "linear"), lambda lib, s, c: lib.stabilizer_circuits.get_preparation_circuit(s, c)),
+    "readout4cycle": (lambda lib: (lib.stabilizer.Stabilizer(HELD4), "cycle"), lambda lib, s, c: lib.stabilizer_circuits.get_readout_circuit(s, c)),
+    # fitters on fixed exact counts
+    "fit3all": (lambda lib: (_chain3(lib), "all"), lambda lib, q, c: _fit(lib, q, c)),
+    "fit3lin": (lambda lib: (_chain3(lib), "linear"), lambda lib, q, c: _fit(lib, q, c)),
+    "fitS3": (lambda lib: (_chain3(lib), lib.stabilizer.Stabilizer(["XZI", "-ZXZ", "IZX"]), "linear"), lambda lib, q, s, c: _fit_stab(lib, q, s, c)),
 }
+
+HELD4 = ["+XZII", "-ZXZI", "+IZXZ", "+IIZX"]
+
+
+class _Counts:
+    def __init__(self, c):
+        self._c = c
+
+    def get_counts(self):
+        return self._c
+
+
+def _fit(lib, qc, conn):
+    circuits = lib.tomography.full_state_tomography_circuits(qc, conn)
+    counts = [{"101": 3, "010": 1} for _ in circuits]
+    ev = lib.tomography.FullStateTomographyFitter(_Counts(counts), circuits).expectation_values()
+    return sorted([str(k), float(v)] for k, v in ev.items())
+
+
+def _fit_stab(lib, qc, stab, conn):
+    circuit = lib.tomography.stabilizer_measurement_circuit(qc, stab, conn)
+    ev = lib.tomography.StabilizerMeasurementFitter(_Counts({"110": 1, "001": 1}), circuit).expectation_values()
+    return sorted([str(k), float(v)] for k, v in ev.items())
+
+
+# calls on a caller-HELD Stabilizer object that is reused across calls (created at its first use in a history)
+HELD_CALLS = {
+    "h_expand": lambda lib, s: s.expand(),
+    "h_classify": lambda lib, s: [lib.lc_classes.determine_lc_class(s).id()],
+    "h_prep_lin": lambda lib, s: lib.stabilizer_circuits.get_preparation_circuit(s, "linear"),
+    "h_readout_star": lambda lib, s: lib.stabilizer_circuits.get_readout_circuit(s, "star"),
+    "h_tolist": lambda lib, s: [s.to_list(), s.to_list(qiskit_convention=True)],
+    "h_predicates": lambda lib, s: [bool(s.validate()), [bool(s.is_qubit_entangled(q)) for q in range(s.num_qubits)],
+                                    bool(s.is_equivalent_mod_phase(lib.stabilizer.Stabilizer(HELD4)))],
+}
+HELD_MUTATIONS = ("rotate_q0", "flip_sign", "swap_generators")
+
+
+def make_held(lib):
+    return lib.stabilizer.Stabilizer(list(HELD4))
+
+
+def mutate_held(s, how):
+    """Caller-side change of the held argument object between calls (it stays a valid stabilizer)."""
+    if how == "rotate_q0":           # Hadamard on qubit 0: exchange the x and z rows of qubit 0
+        r0 = s.R[0].copy()
+        s.R[0] = s.S[0]
+        s.S[0] = r0
+    elif how == "flip_sign":
+        s.phases[1] ^= 1
+    elif how == "swap_generators":
+        s.R[:, [0, 2]] = s.R[:, [2, 0]]
+        s.S[:, [0, 2]] = s.S[:, [2, 0]]
+        s.phases[[0, 2]] = s.phases[[2, 0]]
+
+
+def held_from_values(lib, vals):
+    R, S, ph = (np.array(v, dtype=np.int8) for v in vals)
+    return lib.stabilizer.Stabilizer((R, S, ph))
+
+
+def held_values(s):
+    return [np.asarray(s.R).tolist(), np.asarray(s.S).tolist(), np.asarray(s.phases).tolist()]
+
 
 # ------------------------------------------------------------------------------ alphabet: mutations
 
@@ -341,54 +439,82 @@ def clear_caches(lib):
             o.clear()
 
 
-EVENTS = [("call", c) for c in CALLS] + [("mut_result", m) for m in MUTATIONS] + [("mut_args", m) for m in MUTATIONS] + [("clear", "caches")]
+EVENTS = [("call", c) for c in CALLS] + [("hcall", c) for c in HELD_CALLS] + [("mut_result", m) for m in MUTATIONS] + \
+         [("mut_args", m) for m in MUTATIONS] + [("mut_held", m) for m in HELD_MUTATIONS] + [("clear", "caches")]
 
 
 # ------------------------------------------------------------------------------ executing a history
 
 def execute(history):
-    """Replay a history on a fresh library instance.  Returns (observations, final canonical state)
-    where observations is a list parallel to history: for calls {'result':.., 'args_before':.., 'args_after':..}."""
+    """Replay a history on a fresh library instance.  Returns (observations, final canonical state);
+    observations is parallel to history: for calls {'ref', 'result', 'args_before', 'args_after'} where 'ref'
+    names the reference answer the result must equal."""
     lib = fresh_library()
     obs = []
     last_result = None
     last_args = None
     last_call = None
+    held = None
     for kind, name in history:
         if kind == "call":
             make, fn = CALLS[name]
             args = make(lib)
-            before = sers(args)
+            before = value_sers(args)
             try:
                 res = fn(lib, *args)
             except Exception as ex:      # noqa: BLE001
                 res = ex
-            after = sers(args)
-            obs.append({"result": sers(res), "args_before": before, "args_after": after})
+            after = value_sers(args)
+            obs.append({"ref": name, "result": sers(res), "args_before": before, "args_after": after})
             last_result, last_args, last_call = res, args, name
+        elif kind == "hcall":
+            if held is None:
+                held = make_held(lib)
+            vals = json.dumps(held_values(held))
+            before = value_sers(held)
+            try:
+                res = HELD_CALLS[name](lib, held)
+            except Exception as ex:      # noqa: BLE001
+                res = ex
+            after = value_sers(held)
+            obs.append({"ref": name + "|" + vals, "result": sers(res), "args_before": before, "args_after": after})
+            last_result, last_args, last_call = res, (held,), name
         elif kind == "mut_result":
             if last_result is not None and not isinstance(last_result, BaseException):
                 mutate(last_result, name)
             obs.append(None)
         elif kind == "mut_args":
-            if last_args is not None:
+            if last_args is not None and not (len(last_args) == 1 and last_args[0] is held):
                 mutate(last_args, name)
+            obs.append(None)
+        elif kind == "mut_held":
+            if held is not None:
+                mutate_held(held, name)
             obs.append(None)
         elif kind == "clear":
             clear_caches(lib)
             obs.append(None)
-    held = [("result", last_result), ("args", last_args)]
-    state = json.dumps([global_fingerprint(), alias_signature(held), last_call,
-                        sers(last_result) if not isinstance(last_result, BaseException) else "exc", sers(last_args)])
+    caller = [("result", last_result)]
+    if not (last_args is not None and len(last_args) == 1 and last_args[0] is held):
+        caller.append(("args", last_args))
+    sig = alias_signature(caller, extra_roots=[held] if held is not None else [])
+    # Caller-held results/arguments that share no mutable object with the package's global state or with the
+    # held argument object cannot influence any later call, whatever the caller does to them: such histories
+    # are merged (the mutation events are still executed once from every state).
+    tail = [last_call, sers(last_result) if not isinstance(last_result, BaseException) else "exc", sers(last_args)] if sig else None
+    state = json.dumps([global_fingerprint(), sers(held), sig, tail])
     return obs, state
 
 
 def enabled(history):
     """Events enabled after a history: mutations need a previous call; no two identical mutations in a row."""
-    have_call = any(k == "call" for k, _ in history)
+    have_call = any(k in ("call", "hcall") for k, _ in history)
+    have_held = any(k == "hcall" for k, _ in history)
     out = []
     for ev in EVENTS:
-        if ev[0].startswith("mut") and not have_call:
+        if ev[0] in ("mut_result", "mut_args") and not have_call:
+            continue
+        if ev[0] == "mut_held" and not have_held:
             continue
         if history and history[-1] == ev and ev[0] != "call":
             continue
@@ -407,6 +533,20 @@ def reference_answer(name, seed):
     return r.stdout.strip().splitlines()[-1]
 
 
+def reference_answer_held(ref, seed=0):
+    """ref = '<held call name>|<json [R,S,phases]>': a fresh interpreter builds a fresh Stabilizer with these values."""
+    env = dict(os.environ)
+    env["PYTHONHASHSEED"] = str(seed)
+    r = subprocess.run([sys.executable, "-m", "mc.histmc", "--refheld", ref], cwd=core.VERIF, env=env, capture_output=True, text=True)
+    if r.returncode != 0:
+        raise core.HarnessError("reference interpreter failed for %s: %s" % (ref[:60], r.stderr[-400:]))
+    return r.stdout.strip().splitlines()[-1]
+
+
+def _refheld_work(ref):
+    return ref, reference_answer_held(ref)
+
+
 def _ref_work(payload):
     name, seed = payload
     return name, seed, reference_answer(name, seed)
@@ -422,6 +562,19 @@ def main_ref(name):
     print(obs[0]["result"])
 
 
+def main_refheld(ref):
+    name, vals = ref.split("|", 1)
+    lib = fresh_library()
+    stab = held_from_values(lib, json.loads(vals))
+    try:
+        res = HELD_CALLS[name](lib, stab)
+    except Exception as ex:      # noqa: BLE001
+        res = ex
+    print(sers(res))
+
+
 if __name__ == "__main__":
     if len(sys.argv) == 3 and sys.argv[1] == "--ref":
         main_ref(sys.argv[2])
+    elif len(sys.argv) == 3 and sys.argv[1] == "--refheld":
+        main_refheld(sys.argv[2])
